@@ -354,6 +354,9 @@ func (fw *fixedWindow) GetSystemFlow() *resourceTypes.ResourceFlowData {
 
 func (fw *fixedWindow) GetQuotaGroupsCounters() map[string]int64 {
 	counters := make(map[string]int64)
+	// quotaGroups is written by getQuota under this lock
+	fw.getQuotaLock.Lock()
+	defer fw.getQuotaLock.Unlock()
 	for key, quotaObj := range fw.quotaGroups {
 		counters[key] = quotaObj.GetCounter()
 	}
